@@ -1199,6 +1199,9 @@ func collectCallNames(instrs []ssa.Instruction, names map[string]bool, seen map[
 		case *ssa.Go:
 			names["go"] = true
 			continue
+		case *ssa.Select:
+			names["select"] = true
+			continue
 		case *ssa.MakeClosure:
 			fn := x.Fn.(*ssa.Function)
 			if !seen[fn] && depth < 7 {
